@@ -10,6 +10,7 @@ CONSTANTS
   MaxFaults = 1
   MaxRestarts = 1
   MaxProbes = 1
+  MaxHolds = 1
   MaxNoops = 2
   WithSettle = TRUE
   PauseAtomic = TRUE
@@ -18,4 +19,5 @@ CONSTANTS
   PollerExits = TRUE
   SharedKept = TRUE
   JoinedStopped = TRUE
+  LateRegisterChecked = TRUE
   BarrierExits = TRUE
